@@ -283,6 +283,18 @@ def checkScene (c : Case) : CaseResult := Id.run do
             let cls := if endLegShadow s e k then "endnode-visibility" else "side-changed"
             return { verdict := .specfail s!"class={cls} {where_}: side changed without a visible intersection: edge {e} passes node {k} on a different side: crossings before/at centre {sa.getD k (0,0)} → {sb.getD k (0,0)}{ab}",
                      stats := [("scene.fail." ++ cls, 1)] }
+      -- two-pass steps (applyResizes / handleResizes: x pass, then y pass): parity of the side
+      -- count on both axes, corrected for path end points passing over the ray
+      if s.dim == 2 && s.kind != "abort" && s.kind != "init" then
+        for e in [0:s.paths.size] do
+          sigChecks := sigChecks + 1
+          match firstParityDiff prev.nodes.toList s.nodes.toList prev.paths[e]! s.paths[e]! with
+          | some (k, d) =>
+            let kb := prev.nodes[k]!
+            let ka := s.nodes[k]!
+            return { verdict := .specfail s!"class=side-changed-resize {where_}: edge {e} passes node {k} on a different side after the resize: parity of crossings before the centre on the axis-{d} scan line {sideParity d kb prev.paths[e]!} → {sideParity d ka s.paths[e]!}, predicted {expectedParity d prev.nodes.toList s.nodes.toList prev.paths[e]! k}; node {k} was [{showQ kb.minX},{showQ kb.maxX}]x[{showQ kb.minY},{showQ kb.maxY}], is [{showQ ka.minX},{showQ ka.maxX}]x[{showQ ka.minY},{showQ ka.maxY}]",
+                     stats := [("scene.fail.side-changed-resize", 1)] }
+          | none => pure ()
     match abortTxt with
     | some txt =>
       -- the library stopped itself (its own invariant checks / a sanitizer) although every state
